@@ -111,10 +111,18 @@ class C03Episode(Episode):
                 cause = ['kill-request']
             # setting options mid-dispatch: model is updated on the reply,
             # which for 'set' comes in the same dispatch; fine
+            # (helpers forked by the handler of this very signal did not
+            # exist when the stop signal went round)
             kids = [c for c in k.descendants(p.pid) if k.procs[c].alive] \
                 if mdl['children'] else []
             if mdl['children'] and p.pid in self.kids_seen:
                 kids = sorted(set(kids) | set(self.kids_seen[p.pid]))
+            # children forked inside the very loop step in which the round of
+            # stop signals is sent (by the handler of this signal, or racing
+            # with the daemon's lookup of the children) cannot be expected to
+            # have been reached by it
+            kids = [c for c in kids
+                    if k.procs[c].spawn_step < entry['step']]
             ep = {'t0': entry['t'], 'g': g, 's': s, 'first': entry['sig'],
                   'cause': (cause or ['?'])[0], 'signals': [],
                   'children': mdl['children'], 'kids_at_t0': kids,
@@ -294,6 +302,12 @@ class C03(Prop):
                                       'selective', 'selfexit'))
         for wc in cfg['watchers']:
             for m in wc['mix']:
+                if kids and rng.random() < 0.3:
+                    # a helper forked by the handler of the stop signal: it
+                    # did not exist when the stop signal went round, the
+                    # final SIGKILL has to find it
+                    m['late_kids'] = [rng.choice([1, 1, 2])]
+                    m.setdefault('kid', {'label': 'kid', 'ignore': 'all'})
                 if m.get('label') == 'slow':
                     g = wc['opts']['graceful_timeout']
                     m['delay'] = [rng.choice(gen.delays_around(g, rng))
